@@ -14,6 +14,6 @@ for k in sorted(all_reason_keys()):
         missing.append(k)
     else:
         out[k] = body_digest(f)
-out['*functions'] = sorted(m.funcs)       # baseline: which functions existed (a function not listed is new, see Renames)
+out['*functions'] = {k: body_digest(f) for k, f in sorted(m.funcs.items())}       # baseline: which functions existed, with body digests (a function not listed is new unless it is a rename, see Renames / inline)
 json.dump(out, open(DIGEST_FILE, 'w'), indent=0, sort_keys=True)
 print(len(out), 'digests written;', 'keys without a function (module-level or stale):', missing)
